@@ -3,7 +3,7 @@
 A real ``Gateway`` (as in checks/gwviews.py) learns a controller with zones 00-02 from one RP|0005, then receives
 K state messages through the real ``_msg_handler`` -> ``process_msg`` -> ``Controller/Evohome/MultiZone/Zone
 ._handle_msg`` chain.  Per message the solver chooses the *form* (30C9 / 2309 array from the controller, RP|30C9,
-RP|2309, I|2309 and RP|2349 for one zone), the zone the message is about (a solver hex digit), the value it
+RP|2309, I|2309 and RP|2349 for one zone, RP|1260 / RP|10A0 for the stored hot water), the zone the message is about (a solver hex digit), the value it
 carries (a solver 16-bit word in the temperature range) and *when* it arrives (a solver real: the message's time
 stamp is a SymInstant); the time of the read is a solver real as well.  All zones' ``temperature`` and ``setpoint``
 are then read K + 2 times with a loop iteration in between (the read that notices an expiry still returns the stale
@@ -23,8 +23,9 @@ CTL, HGI = "01:145038", "18:013393"
 T0 = "2023-01-01T00:00:00.000000"
 ZONES = ("00", "01", "02")
 OTHER = {"00": "0834", "01": "0898", "02": "08FC"}  # the other elements of an array: fixed, so that a repeat can be byte-identical
-FORMS = ("A30", "R30", "A23", "R23", "I23", "R49")
-ATTR_OF = {"A30": "temperature", "R30": "temperature", "A23": "setpoint", "R23": "setpoint", "I23": "setpoint", "R49": "setpoint"}
+FORMS = ("A30", "R30", "A23", "R23", "I23", "R49", "D60", "D0A")  # D..: the stored hot water's temperature (1260) / setpoint (10A0)
+ATTR_OF = {"A30": "temperature", "R30": "temperature", "A23": "setpoint", "R23": "setpoint", "I23": "setpoint", "R49": "setpoint", "D60": "temperature", "D0A": "setpoint"}
+ENTS = ZONES + ("HW",)
 HORIZON = 30000  # seconds: beyond twice the longest lifetime involved
 
 
@@ -41,6 +42,10 @@ def frame_of(form, z, v):
         return f"...  I --- {CTL} --:------ {CTL} 2309 003 " + z + v, "2309"
     if form == "R49":
         return f"... RP --- {CTL} {HGI} --:------ 2349 007 " + z + v + "00FFFFFF", "2349"
+    if form == "D60":
+        return f"... RP --- {CTL} {HGI} --:------ 1260 003 00" + v, "1260"
+    if form == "D0A":
+        return f"... RP --- {CTL} {HGI} --:------ 10A0 006 00" + v + "0003E8", "10A0"
     raise ValueError(form)
 
 
@@ -130,8 +135,15 @@ def episode(env, forms):
     arrivals = []  # (time offset, attr, {zone idx: value k}, L)
     t_prev = None
     for i, form in enumerate(forms):
-        zi = env.choice(f"zone{i}", [0, 1, 2])
+        zi = env.choice(f"zone{i}", [0, 1, 2]) if form[0] != "D" else 0
         h, k = env.word(f"v{i}")
+        if form == "D0A":  # 255.00 is the 10A0 'no hot water' sentinel, not a setpoint
+            if env.symbolic:
+                c = k != 25500
+                if not isinstance(c, bool):
+                    env.ctx.assume(c.e)
+            elif k == 25500:
+                return "bad-cex"
         t = env.real(f"t{i}", 1, HORIZON)
         if t_prev is not None:
             if env.symbolic:
@@ -142,6 +154,9 @@ def episode(env, forms):
         if form in ("A30", "A23"):
             frame = array_frame("30C9" if form == "A30" else "2309", zi, h)
             covers = {z: (k if j == zi else int(OTHER[z], 16)) for j, z in enumerate(ZONES)}
+        elif form[0] == "D":
+            frame, _ = frame_of(form, None, h)
+            covers = {"HW": k}
         else:
             frame, _ = frame_of(form, ZONES[zi], h)
             covers = {ZONES[zi]: k}
@@ -167,18 +182,25 @@ def episode(env, forms):
     r = env.real("read_after", 0, HORIZON)
     now = t_prev + r
     run.tx.now = _at(base_dt, now, env.symbolic)
-    first = {(z, a): getattr(zone[z], a) for z in ZONES for a in ("temperature", "setpoint")}
+    def read_all():
+        out = {(z, a): getattr(zone[z], a) for z in ZONES for a in ("temperature", "setpoint")}
+        dhw = tcs.dhw
+        for a in ("temperature", "setpoint"):
+            out[("HW", a)] = getattr(dhw, a) if dhw is not None else None
+        return out
+
+    first = read_all()
     run.spin()  # deferred purges of expired messages run here
     # recorded finding of the pinned tree: the read that notices an expiry still returns the stale value and only
     # schedules the purge; with a code pair (2309/2349) the next read then falls back to the older message of the
     # pair and notices *its* expiry the same way - so the no-lingering clause is stated on read number K + 2
     second = first
     for _ in range(len(forms) + 1):
-        second = {(z, a): getattr(zone[z], a) for z in ZONES for a in ("temperature", "setpoint")}
+        second = read_all()
         run.spin()
     from symx import s_and, s_implies, s_or
 
-    for z in ZONES:
+    for z in ENTS:
         for a in ("temperature", "setpoint"):
             cov = [(t, c[z], L, f) for (t, at, c, L, f) in arrivals if at == a and z in c]
             got1, got2 = first[(z, a)], second[(z, a)]
@@ -215,7 +237,7 @@ def queries(tier):
     if thorough:
         combos += [c for c in itertools.product(FORMS, repeat=3) if c[0] in ("A30", "A23") or c[1] in ("A30", "A23")]
     else:
-        combos += [("A30", "R30", "A30"), ("A23", "R49", "I23"), ("A30", "A30", "R30"), ("R23", "A23", "A23"), ("A23", "R30", "R49"), ("R49", "A23", "R23")]
+        combos += [("A30", "R30", "A30"), ("A23", "R49", "I23"), ("A30", "A30", "R30"), ("R23", "A23", "A23"), ("A23", "R30", "R49"), ("R49", "A23", "R23"), ("D60", "A30", "D60"), ("D0A", "A23", "D60")]
     for forms in combos:
         qs.append(Query(f"gwfresh[{'>'.join(forms)}]", lambda c, f=forms: h_fresh(c, f), {"h": "gwfresh", "forms": list(forms)}, group="gwfresh", max_secs=600 if thorough else 200, max_paths=20000, weight=len(forms) ** 2))
     return qs
